@@ -163,6 +163,7 @@ pub fn run(ctx: &Ctx) -> i32 {
             profile: Profile { max_tokens: ctx.tier.pick(10, 40), small_caps_weight: 200, queries: true, exact_queries: true, modes: &hist::ALL_MODES, sinks: &hist::ALL_SINKS, bom_prefix_weight: 64 },
             fills: vec![0xA5],
             mixed_sinks: false,
+            mixed_all: true,
         };
         st.merge(dech::run_dec_check(ctx, &dc));
     }
